@@ -140,7 +140,7 @@ def load(cfg):
     # closures / coroutine bodies of new functions are new as well
     for k in fx.fn_keys_raw():
         m = CLOSURE_RX.search(k)
-        if m and k[:m.start()] in new:
+        if m and (k[:m.start()] in new or k not in base["fns"]):
             new.add(k)
     fx.set_new_fns(new)
     rep["baseline"] = os.path.relpath(os.path.join(BASE_DIR, cfg + ".json"), VERIF)
